@@ -65,8 +65,8 @@ use vcore::{BatchPlan, Check};
 /// multi-threaded runtime, where another task may run on another core right after this one got the
 /// lock (a second reader next to a reader; anybody not needing the lock next to a writer). When the
 /// run's schedule says so (`verif_net::set_yield_rate`, off by default, drawn from the run's own
-/// PRNG), the task yields once after the acquisition, still holding the guard: every other runnable
-/// task gets a turn first. Every execution produced this way is one the real runtime can produce.
+/// PRNG), the task yields once before asking for the lock and / or once after the acquisition, still
+/// holding the guard: every other runnable task gets a turn first. Every execution produced this way is one the real runtime can produce.
 #[derive(Clone)]
 pub(crate) struct GlobalHandle(Arc<tokio::sync::RwLock<Global>>);
 
@@ -75,11 +75,14 @@ impl GlobalHandle {
         GlobalHandle(Arc::new(tokio::sync::RwLock::new(g)))
     }
     pub(crate) async fn read(&self) -> tokio::sync::RwLockReadGuard<'_, Global> {
+        // before asking for the lock: what the task did last and its request for the lock are two steps
+        crate::verif_net::sched_point(3).await;
         let g = self.0.read().await;
         crate::verif_net::sched_point(1).await;
         g
     }
     pub(crate) async fn write(&self) -> tokio::sync::RwLockWriteGuard<'_, Global> {
+        crate::verif_net::sched_point(4).await;
         let g = self.0.write().await;
         crate::verif_net::sched_point(2).await;
         g
